@@ -221,6 +221,10 @@ func (e *DocumentError) pointerToTheErrorCharacter() string {
 	e.preparation()
 
 	content := e.file.Content()
+	if len(content) == 0 {
+		// Nothing to point at in an empty file.
+		return "^"
+	}
 	begin := e.lineBeginning()
 	spaces := content[begin:].CountSpacesFromLeft()
 
